@@ -82,6 +82,10 @@ func ZZ_C15_Resolve() {
 		zzLiteralWitness(e, names)
 	}
 	call := &Call{Task: req}
+	if zz.Bool("call_has_vars") { // e.g. a `task:` entry or dep with a vars: block
+		call.Vars = ast.NewVars()
+		call.Vars.Set("GREETING", ast.Var{Value: "hi"})
+	}
 	got, err := e.GetTask(call)
 
 	// specification
